@@ -14,6 +14,7 @@ reference deep-merge for constructor arguments.
 from __future__ import annotations
 
 import copy
+import re as _re
 import hashlib
 import random
 from contextlib import AsyncExitStack
@@ -45,6 +46,23 @@ from asphalt.core import (
 from ..core import Sim, run_sim
 from . import compreg
 from .common import DTS, SimError, SimLookup, contains_cancel, is_cancel, pick, rpause
+
+
+def _tn(t: Any) -> str:
+    """Stable display name of a resource type (class or generic alias of a pool class)."""
+    return t.__name__ if isinstance(t, type) else str(t).replace("sim.worlds.compreg.", "")
+
+
+def rtype(ti: int, ga: Any = None) -> Any:
+    """The resource type of pool index ti - or a parametrized generic built on it."""
+    t = RT[ti]
+    if ga == "list":
+        return list[t]  # type: ignore[valid-type]
+    if ga == "tuple":
+        return tuple[t, ...]  # type: ignore[valid-type]
+    if ga == "opt":
+        return list[t | None]  # type: ignore[valid-type,operator]
+    return t
 
 
 class _Owner:
@@ -218,7 +236,7 @@ def _injected_lookup(t: type, name: str, optional: bool) -> Any:
             return r
 
         dep.__annotations__ = {"r": _Optional[t] if optional else t}
-        dep.__qualname__ = f"dep_{t.__name__}_{name}_{int(optional)}"
+        dep.__qualname__ = f"dep_{_tn(t)}_{name}_{int(optional)}"
         _INJ_CACHE[key] = inject(dep)
     return _INJ_CACHE[key]
 
@@ -597,12 +615,14 @@ class H:
 
     def pub(self, spec: dict, path: str, phase: str) -> None:
         sim = self.sim
-        types = [RT[spec["t"]]] + ([RT[spec["t2"]]] if spec.get("t2") is not None else [])
+        types = [rtype(spec["t"], spec.get("ga"))] + ([RT[spec["t2"]]] if spec.get("t2") is not None else [])
         name = spec.get("name", "default")
         rid = spec["rid"]
         kw: dict[str, Any] = {}
         if spec.get("desc"):
             kw["description"] = spec["desc"]
+        # a lone parametrized generic is given as such (not wrapped in a list)
+        typearg: Any = types[0] if spec.get("ga") and len(types) == 1 else types
         try:
             if spec.get("fac"):
                 h = self
@@ -618,10 +638,18 @@ class H:
                     sim.log("fac_product", rid=rid, val=h.vtag(v))
                     return v
 
-                add_resource_factory(afac if spec.get("fdur") is not None else sfac, name, types=types, **kw)
+                fac_ = afac if spec.get("fdur") is not None else sfac
+                if spec.get("annot") and not spec.get("ga"):
+                    # the types come from the factory's return annotation (a union of them)
+                    from typing import Union
+
+                    fac_.__annotations__["return"] = types[0] if len(types) == 1 else Union[tuple(types)]  # type: ignore[valid-type]
+                    add_resource_factory(fac_, name, **kw)
+                else:
+                    add_resource_factory(fac_, name, types=typearg, **kw)
             else:
                 v = self.val(rid, bool(spec.get("falsy")))
-                tl = list(types)  # the publisher's own scratch list, re-used right after
+                tl = list(types) if typearg is types else typearg  # the publisher's own scratch list, re-used right after
                 if spec.get("td"):
                     tdid = f"rtd_{rid}"
 
@@ -645,11 +673,12 @@ class H:
                     sim.log("td_reg", td=tdid, path=path)
                 else:
                     add_resource(v, name, tl, **kw)
-                tl[:] = [compreg.Decoy]
+                if isinstance(tl, list):
+                    tl[:] = [compreg.Decoy]
         except Exception as e:
-            sim.log("pub_failed", rid=rid, path=path, exc=f"{type(e).__name__}: {e}"[:100])
+            sim.log("pub_failed", rid=rid, path=path, exc=f"{type(e).__name__}: {e}"[:100], types=[_tn(t) for t in types])
             raise
-        sim.log("pub", rid=rid, path=path, phase=phase, types=[t.__name__ for t in types], name=name, fac=bool(spec.get("fac")))
+        sim.log("pub", rid=rid, path=path, phase=phase, types=[_tn(t) for t in types], name=name, fac=bool(spec.get("fac")))
 
     def burst(self, spec: dict, path: str) -> None:
         """n non-matching publications in one step (decoys for waiters)."""
@@ -674,10 +703,10 @@ class H:
 
     async def wait(self, spec: dict, path: str, phase: str) -> None:
         sim = self.sim
-        t = RT[spec["t"]]
+        t = rtype(spec["t"], spec.get("ga"))
         name = spec["name"]
         wid = spec["wid"]
-        sim.log("wait_begin", wid=wid, path=path, type=t.__name__, name=name, opt=bool(spec.get("opt")))
+        sim.log("wait_begin", wid=wid, path=path, type=_tn(t), name=name, opt=bool(spec.get("opt")))
         try:
             if spec.get("giveup") is not None:
                 v = None
@@ -1085,8 +1114,8 @@ def make_main(plan: dict):
                         async for ev in ev_stream:
                             if ev.resource_name == "__sentinel__":
                                 break
-                            names_ = [getattr(t_, "__name__", str(t_)) for t_ in ev.resource_types]
-                            if all(n_.startswith("T") and n_[1:].isdigit() for n_ in names_):
+                            names_ = [_tn(t_) for t_ in ev.resource_types]
+                            if all(_re.match(r"^(list\[|tuple\[)?T\d+", n_) for n_ in names_):
                                 sim.log("res_event", types=names_, name=ev.resource_name, is_factory=ev.is_factory, desc=ev.resource_description, round=rnd)
                     sim.log("block_end", round=rnd)
                     h.block_ended.set()
@@ -1164,7 +1193,7 @@ async def h_post(h: H, sim: Sim, rnd: int) -> None:
                     continue
                 spec = a[1]
                 want = final_name(n, spec, ph)
-                t = RT[spec["t"]]
+                t = rtype(spec["t"], spec.get("ga"))
                 got = h.real.get_resources(t)
                 fac = bool(spec.get("fac"))
                 # (names under which *other* components publish the same type are theirs)
@@ -1819,6 +1848,9 @@ def oracle(sim: Sim, plan: dict) -> list[dict]:
 
         # ---------------------------------------------------------------- C18: announced names
         evs = [r[5] for r in tr if r[4] == "res_event" and not r[5]["name"].startswith("dk")]
+        for r in tr:
+            if r[4] == "pub_failed" and r[5].get("types") and any(e["types"] == r[5]["types"] for e in evs):
+                v("C18.events", "failed_call_announced", f"the publication {r[5]['rid']} by {r[5]['path']} failed ({r[5]['exc']}) but was announced on the calling context")
         if any(r[4] == "block_end" for r in tr):
             for r in tr:
                 if r[4] != "pub":
@@ -2077,6 +2109,7 @@ class G:
         self.ntd = 0
         self.nsvc = 0
         self.ndk = 0
+        self.ga_of: dict[int, str] = {}
 
     def skeleton(self, depth: int, alias: str) -> dict:
         rng = self.rng
@@ -2179,6 +2212,8 @@ class G:
                     ti, nm, isfac, fdur = rng.choice(avail)
                     self.nw += 1
                     w: dict[str, Any] = {"wid": f"w{self.nw}", "t": ti, "name": nm}
+                    if ti in self.ga_of:
+                        w["ga"] = self.ga_of[ti]
                     if rng.random() < 0.12 and not fdur:
                         w["opt"] = True
                     if rng.random() < (0.6 if self.prop == "C19" else 0.15):
@@ -2194,7 +2229,7 @@ class G:
                         if others:
                             ti2, nm2, _f2, _d2 = rng.choice(others)
                             self.nw += 1
-                            pair = [w, {"wid": f"w{self.nw}", "t": ti2, "name": nm2}]
+                            pair = [w, {"wid": f"w{self.nw}", "t": ti2, "name": nm2, **({"ga": self.ga_of[ti2]} if ti2 in self.ga_of else {})}]
                             rng.shuffle(pair)
                             acts.append(["pwait", pair])
                             continue
@@ -2208,9 +2243,15 @@ class G:
                         spec["t2"] = self.nt - 1
                     if rng.random() < 0.2:
                         spec["falsy"] = True
+                    if spec.get("t2") is None and rng.random() < 0.12:
+                        # the type is a parametrized generic built on the pool class
+                        spec["ga"] = rng.choice(("list", "tuple", "opt"))
+                        self.ga_of[spec["t"]] = spec["ga"]
                     rr = rng.random()
                     if rr < 0.2:
                         spec["fac"] = True
+                        if rng.random() < 0.3:
+                            spec["annot"] = True
                         if rng.random() < 0.6:
                             spec["fdur"] = 0.0
                             if self.prop in ("C06", "C07", "C05") and rng.random() < 0.4:
@@ -2304,7 +2345,7 @@ def _forward_waits(g: "G", tree: dict, rng: random.Random) -> None:
         if ppath == path:
             continue
         g.nw += 1
-        w = ["wait", {"wid": f"w{g.nw}", "t": spec["t"], "name": final_name(pn, spec, pph)}]
+        w = ["wait", {"wid": f"w{g.nw}", "t": spec["t"], "name": final_name(pn, spec, pph), **({"ga": spec["ga"]} if spec.get("ga") else {})}]
         pos = rng.randint(0, min(1, len(n[ph])))
         n[ph].insert(pos, w)
         if model_timeline({"tree": tree})["finish"] is None:
@@ -2318,7 +2359,7 @@ def _forward_waits(g: "G", tree: dict, rng: random.Random) -> None:
             if others:
                 p3, n3, ph3 = rng.choice(others)
                 g.nw += 1
-                w3 = ["wait", {"wid": f"w{g.nw}", "t": spec["t"], "name": final_name(pn, spec, pph), "giveup": rng.choice((0.25, 0.5, 1.0))}]
+                w3 = ["wait", {"wid": f"w{g.nw}", "t": spec["t"], "name": final_name(pn, spec, pph), "giveup": rng.choice((0.25, 0.5, 1.0)), **({"ga": spec["ga"]} if spec.get("ga") else {})}]
                 n3[ph3].insert(0, w3)
                 if model_timeline({"tree": tree})["finish"] is None:
                     n3[ph3].remove(w3)
@@ -2334,7 +2375,7 @@ def _alias_trap(g: "G", tree: dict, rng: random.Random) -> None:
         if "/" not in n.get("alias", "") or n.get("start") is None:
             continue
         for i, a in enumerate(n["start"]):
-            if a[0] == "pub" and a[1].get("name", "default") == "default" and not a[1].get("fac") and a[1].get("t2") is None:
+            if a[0] == "pub" and a[1].get("name", "default") == "default" and not a[1].get("fac") and a[1].get("t2") is None and not a[1].get("ga"):
                 cands.append((path, n, i, a[1]))
     if not cands:
         return
